@@ -612,11 +612,27 @@ func main() {
 			cg([]string{afoo}, customT{"GetType", "example.com/b/foo.T", "ResType example.com/b/foo T"}, customT{"GetInterface", "example.com/b/foo.Iface", "ResIface example.com/b/foo Iface"})),
 		mk(cg([]string{"example.com/c20/lib"}, customT{"GetType", "example.com/c20/lib.T", "ResType example.com/c20/lib T"}, customT{"GetInterface", "example.com/c20/lib.Doer", "ResIface example.com/c20/lib Doer"})),
 	)
+	// fully-qualified names for the run-time lookups of custom filters: the name means the package as written, whatever the
+	// group imports (the base names collide with Import()s of the menu and with each other)
+	customMenu := []customT{
+		{"GetInterface", "io.Reader", "ResIface io Reader"}, {"GetInterface", "example.com/io.Reader", "ResIface example.com/io Reader"},
+		{"GetInterface", "example.com/a/foo.Iface", "ResIface example.com/a/foo Iface"}, {"GetInterface", "example.com/b/foo.Iface", "ResIface example.com/b/foo Iface"},
+		{"GetType", "example.com/a/foo.T", "ResType example.com/a/foo T"}, {"GetType", "example.com/b/foo.T", "ResType example.com/b/foo T"},
+		{"GetType", "text/template.Template", "ResType text/template Template"}, {"GetType", "html/template.Template", "ResType html/template Template"},
+		{"GetType", "math/rand.Rand", "ResType math/rand Rand"}, {"GetInterface", "math/rand.Source", "ResIface math/rand Source"},
+		{"GetType", "example.com/c20/lib.T", "ResType example.com/c20/lib T"}, {"GetInterface", "io.StringWriter", "ResIface io StringWriter"},
+	}
 	for i := 0; i < *nscen; i++ {
 		var sc scenario
+		withCustom := r.Intn(6) == 0
 		for k, n := 0, 1+r.Intn(3); k < n; k++ {
 			var gr groupT
 			gr.Skip = r.Intn(8) == 0
+			if withCustom && !gr.Skip {
+				for c, m := 0, 1+r.Intn(2); c < m; c++ {
+					gr.Custom = append(gr.Custom, customMenu[r.Intn(len(customMenu))])
+				}
+			}
 			for r.Intn(5) < 2 && len(gr.Imports) < 3 {
 				gr.Imports = append(gr.Imports, importMenu[r.Intn(len(importMenu))])
 			}
